@@ -8,22 +8,26 @@ from measured import Dimension, Number, Unit
 
 def laws(dims, tag):
     fails, n = [], 0
-    def chk(name, ok, *what):
+    def chk(name, f, *what):
         nonlocal n
         n += 1
+        try:
+            ok = f()
+        except Exception as ex:  # noqa
+            fails.append([tag, name + "-raises"] + [str(w) for w in what] + [implib.errclass(ex)]); return
         if not ok: fails.append([tag, name] + [str(w) for w in what])
     for a, b in itertools.product(dims, repeat=2):
-        chk("comm", a * b is b * a, a, b)
-        chk("div", a / b is a * b ** -1, a, b)
-        chk("inverse", a * a ** -1 is Number and a / a is Number, a)
-        chk("square", a * a is a ** 2, a)
-        chk("quotient-back", (a * b) / b is a and (a / b) * b is a, a, b)
-        chk("root", (a ** 3).root(3) is a and (a ** -2).root(-2) is a, a)
+        chk("comm", lambda: a * b is b * a, a, b)
+        chk("div", lambda: a / b is a * b ** -1, a, b)
+        chk("inverse", lambda: a * a ** -1 is Number and a / a is Number, a)
+        chk("square", lambda: a * a is a ** 2, a)
+        chk("quotient-back", lambda: (a * b) / b is a and (a / b) * b is a, a, b)
+        chk("root", lambda: (a ** 3).root(3) is a and (a ** -2).root(-2) is a, a)
         for c in dims[:4]:
-            chk("assoc", (a * b) * c is a * (b * c), a, b, c)
+            chk("assoc", lambda: (a * b) * c is a * (b * c), a, b, c)
     for name, d in list(Dimension._by_name.items()):
-        chk("named", Dimension(tuple(d.exponents)) is d, name)
-        chk("neutral", d * Number is d and Number * d is d and d / Number is d, name)
+        chk("named", lambda: Dimension(tuple(d.exponents)) is d, name)
+        chk("neutral", lambda: d * Number is d and Number * d is d and d / Number is d, name)
     return n, fails
 
 def run(data):
@@ -32,8 +36,11 @@ def run(data):
     n1, f1 = laws(base, "before")
     out = {"before": n1, "fails": f1}
     for i, (nm, sy) in enumerate(data.get("define", [])):
-        new = Dimension.define(nm, sy)
-        u = new.unit(nm + " unit", sy.lower() + "u")
+        try:
+            new = Dimension.define(nm, sy)
+            u = new.unit(nm + " unit", sy.lower() + "u")
+        except Exception as ex:  # noqa
+            out["fails"].append([f"after-define-{i}", "define-raises", implib.errclass(ex), str(ex)[:80]]); continue
         n2, f2 = laws(base + [new, new * measured.Area, new / measured.Speed, measured.Energy / new], f"after-define-{i}")
         # units over the new dimension combine with existing derived units
         ok = True
